@@ -401,8 +401,19 @@ func (x *Exec) schedFn(p *PodRec, op Op, res *OpResult) func() {
 func (x *Exec) opClosure2(op Op, res *OpResult) (string, func()) {
 	w := x.W
 	switch op.K {
-	case "bind":
+	case "bind", "bindgone":
 		cands := x.existingPods(func(p *PodRec) bool { return !p.Bound && p.Live() && len(p.Filtered) > 0 })
+		if op.K == "bindgone" {
+			// the scheduler's bind request for a pod that was deleted after its filter (the request was in flight): galaxy-ipam's pod
+			// cache may still hold the pod, the API server answers the binding with NotFound
+			cands = nil
+			for _, p := range x.W.Pods {
+				if p.Deleted && !p.Bound && len(p.Filtered) > 0 {
+					cands = append(cands, p)
+				}
+			}
+			sort.Slice(cands, func(i, j int) bool { return cands[i].Name < cands[j].Name })
+		}
 		if len(cands) == 0 {
 			res.NoOp = true
 			return "", nil
@@ -879,6 +890,8 @@ func canonKind(k string) string {
 		return "create"
 	case "restartstale":
 		return "restart"
+	case "bindgone":
+		return "bind"
 	}
 	return k
 }
